@@ -5,8 +5,8 @@
    SequenceReset-GapFill with its number, PossDupFlag, NewSeqNo); BurstProofs.is_item decode s raw it = "the raw
    bytes carry that number (Session::process' scan for 34=) and decode to such a message with the CompIDs s
    expects"; tiles pos l past = "the items cover the numbers pos .. past-1 consecutively";
-   aligned s pos = state continuous and next expected number pos; ahead s pos = state resend_request_sent and
-   next expected number pos+1; good s = reader running, session active, not shut down, past the logon phase;
+   aligned s pos = state continuous and next expected number pos; ahead s pos = state resend_request_sent or
+   continuous and next expected number pos+1; good s = reader running, session active, not shut down, past the logon phase;
    dels / retl = the DELIVER events / the return values of Session::process in an event list.
    The stream theorems hold for EVERY schema, EVERY decoder, EVERY session configuration and persister. *)
 From Coq Require Import NArith ZArith List Bool.
@@ -92,6 +92,38 @@ Theorem c20_gap_and_burst :
     dels evs' = item_dels burst /\ retl evs' = (1%Z :: item_rets sc burst).
 Proof. exact gap_and_burst. Qed.
 Print Assumptions c20_gap_and_burst.
+
+(* The burst alone, from ANY running state that is one ahead -- resend_request_sent, or continuous when the message
+   that revealed the gap was the counterparty's own ResendRequest and the session has meanwhile SERVED it
+   (resend_request_received -> continuous wipes out "our resend is outstanding"): retransmissions below the expected
+   number are accepted on their PossDupFlag alone, whatever the state; the first GapFill re-aligns. *)
+Theorem c20_burst_one_ahead :
+  forall sc decode fl now items raws l s evs pos past,
+  Forall2 (is_item decode s) raws items -> tiles pos items past -> good s -> ahead s pos -> dup_until_gap items ->
+  exists s' evs',
+    reader_loop sc decode fl now (raws ++ l) s evs = reader_loop sc decode fl now l s' (evs ++ evs')%list /\
+    good s' /\ cfg s s' /\ (if has_gap items then BurstProofs.aligned s' past else ahead s' past) /\
+    dels evs' = item_dels items /\ retl evs' = item_rets sc items.
+Proof. exact run_ahead. Qed.
+Print Assumptions c20_burst_one_ahead.
+
+(* Gap revealed by the counterparty's ResendRequest (both sides lost messages).  The episode grammar of
+   c20_gapfill_partial does NOT include this revealing step (`reveals` admits application messages and Heartbeats: what
+   handle_resend_request does to the state depends on the session's own store -- with F21's empty record it stays in
+   resend_request_received for good); it is covered by c20_burst_one_ahead plus this witness: the session has sent 2,
+   the counterparty's 3 is lost, its ResendRequest [2,0] numbered 4 arrives: the session sends ResendRequest(3,0), serves
+   the request from its file persister and is left in state CONTINUOUS expecting 4 = one ahead of 3; the burst
+   (replay 3, GapFill 4->5) meets the hypotheses of c20_burst_one_ahead for that state; the run satisfies c20_ok
+   (expected numbers 1,2,3,3,4,5,6,7; every state after the Logon is continuous). *)
+Theorem c20_rr_reveals_example :
+  (let '(ops, tr) := run_with_peer mini (simple_decode mini []) [] w_rr_reveals in
+   c20_ok mini w_rr_reveals ops tr = true /\ c20_class ops tr = 0 /\
+   recvs tr = [1; 2; 3; 3; 4; 5; 6; 7] /\ states tr = [5; 1; 1; 1; 1; 1; 1; 1]) /\
+  (exists s, s_after_rr = Some s /\ good s /\ ahead s 3 /\ s_state s = st_continuous /\
+             Forall2 (is_item dec_mini s) (chunks_at w_rr_reveals 5) burst_rr /\ tiles 3 burst_rr (4 + 1) /\
+             forallb item_dup burst_rr = true /\ has_gap burst_rr = true).
+Proof. exact rr_example. Qed.
+Print Assumptions c20_rr_reveals_example.
 
 (* c20_gapfill_partial: whole streams.  A stream is a sequence of episodes: one message in sequence, or a message
    above the expected number followed by the burst answering the ResendRequest.  HYPOTHESIS (in eps_ok): every
